@@ -66,6 +66,13 @@ def items(tier, seed):
                     for outer in (True, False, "only"):
                         for temp in (0.01, 1.0):
                             its.append({"kind": "A", "inputs": list(inputs), "output": output, "size": size, "init": init, "pre": pre, "target": kind, "outer": outer, "temp": temp, "tier": tier})
+    # part C: the tree.slice front end (reslice / inplace solver-chosen) on fresh and on already sliced trees
+    for ni, (inputs, output, size) in enumerate(nets):
+        labels = skel.all_labels(inputs)
+        for pre in [None] + (labels[:2] if tier == "quick" else labels):
+            for kind in ("size", "slices"):
+                for outer in ((True,) if tier == "quick" else (True, False)):
+                    its.append({"kind": "C", "inputs": list(inputs), "output": output, "size": size, "init": "greedy", "pre": pre, "target": kind, "outer": outer, "temp": 0.01, "tier": tier})
     sk = skel.skeletons(2, 2, 4, 1, outputs="unordered") + skel.skeletons(3, 2, 4, 1, outputs="unordered")
     sk = sk[::5] if tier == "quick" else sk[::2] + skel.skeletons(4, 2, 4, 1, max_positions=7, outputs="unordered")[::10]
     for i in range(0, len(sk), 3):
@@ -187,6 +194,70 @@ def run_A(item, rec):
         rec.validated += 1
 
 
+def run_C(item, rec):
+    """tree.slice(...): the RETURNED tree honours the target, whatever reslice / inplace are and whether or not
+    the tree was sliced before"""
+    import cotengra.slicer as SL
+
+    orig_log = SL.log
+    tree0 = make_tree(item)
+    tree0.contract_stats()
+    kind, outer, temp, pre = item["target"], item["outer"], item["temp"], item["pre"]
+    case = {k: item[k] for k in ("inputs", "output", "size", "init", "pre", "target", "outer", "temp")}
+    unsliced_max = make_tree(dict(item, pre=None)).max_size()
+    try:
+
+        def harness(ctx):
+            stubs.LINKS.clear()
+            SL.log = stubs.sym_log_any
+            rng = stubs.SymRng("ts")
+            reslice = bool(symx.choose("reslice", 2))
+            inplace = bool(symx.choose("inplace", 2))
+            if kind == "size":
+                tval = symx.sym_int("target_size", 1, max(2, unsliced_max))
+                kw = dict(target_size=tval)
+            else:
+                tval = symx.sym_int("target_slices", 1, 12)
+                kw = dict(target_slices=tval)
+            src = tree0.copy()
+            how = dict(reslice=reslice, inplace=inplace)
+            try:
+                t = src.slice(temperature=temp, allow_outer=outer, max_repeats=2, reslice=reslice, inplace=inplace, seed=rng, **kw)
+            except (symx.PathAbort, symx.Unsupported, symx.Budget):
+                raise
+            except (RuntimeError, ValueError, KeyError) as e:
+                k = f"slice_raised:{type(e).__name__}"
+                rec.notes[k] = rec.notes.get(k, 0) + 1
+                return None
+            bads = []
+            if inplace and t is not src:
+                bads.append(z3.BoolVal(True))
+            if not inplace and (src.sliced_inds != tree0.sliced_inds):
+                bads.append(z3.BoolVal(True))  # the original must be left alone
+            if kind == "size":
+                bads.append(term(t.max_size()) > term(tval))
+            else:
+                # 'on top of the current number of slices': counted from the tree the search starts from
+                base = 1 if reslice else tree0.nslices
+                bads.append(term(t.nslices) < term(tval) * base)
+            if outer is False and (set(t.sliced_inds) - set(tree0.sliced_inds if not reslice else ())) & set(tree0.output):
+                bads.append(z3.BoolVal(True))
+
+            def viol(m):
+                return dict(case=dict(case, **how), sliced=sorted(t.sliced_inds), actual=dict(size=t.max_size(), nslices=t.nslices), target=float(symx.eval_model(m, tval)),
+                            signature=["C07C", case["inputs"], str(pre), kind, str(outer), reslice, inplace, sorted(t.sliced_inds)])
+
+            rec.refute(ctx, z3.Or(bads), "tree.slice: the returned tree honours the target", viol)
+            return tuple(sorted(t.sliced_inds))
+
+        out = symx.explore(harness, max_paths=(300 if item["tier"] == "quick" else 3000), deadline_s=(15 if item["tier"] == "quick" else 120))
+        rec.add_explore(out)
+        rec.sample(dict(part="C", case=case, distinct_index_sets=len({r for r in out.results if r is not None}), reslice="solver-chosen", inplace="solver-chosen"))
+    finally:
+        SL.log = orig_log
+    rec.validated += 1
+
+
 def costs_equal(a, b, labels):
     bads = [term(a._flops) != term(b._flops), term(a.size) != term(b.size)]
     for ix in labels:
@@ -246,7 +317,7 @@ def run_B(item, rec):
 
 def run_item(item, rec):
     warnings.simplefilter("ignore")
-    (run_A if item["kind"] == "A" else run_B)(item, rec)
+    {"A": run_A, "B": run_B, "C": run_C}[item["kind"]](item, rec)
 
 
 def replay(v):
@@ -273,6 +344,27 @@ def replay(v):
             if cost._flops != ref._flops or cost.size != ref.size:
                 return True, f"after removing {ix}: incremental flops/size {cost._flops}/{cost.size} vs rebuilt {ref._flops}/{ref.size}"
         return False, "incremental model agrees with the rebuild"
+    if "reslice" in case:
+        # (C) tree.slice on ordinary seeds
+        kind = case["target"]
+        tval = int(v["target"])
+        for seed in range(16):
+            tree0 = make_tree(dict(case))
+            src = tree0.copy()
+            try:
+                t = src.slice(temperature=case["temp"], allow_outer=case["outer"], max_repeats=2, reslice=case["reslice"], inplace=case["inplace"], seed=seed,
+                              **({"target_size": tval} if kind == "size" else {"target_slices": tval}))
+            except (RuntimeError, ValueError, KeyError):
+                continue
+            what = f"tree.slice(target_{kind}={tval}, reslice={case['reslice']}, inplace={case['inplace']}) on a tree with sliced indices {sorted(tree0.sliced_inds)}"
+            if kind == "size" and t.max_size() > tval:
+                return True, f"{what}: returned tree has max_size {t.max_size()} (sliced {sorted(t.sliced_inds)}, seed {seed})"
+            base = 1 if case["reslice"] else tree0.nslices
+            if kind == "slices" and t.nslices < tval * base:
+                return True, f"{what}: returned tree has {t.nslices} slices, {base} before (seed {seed})"
+            if not case["inplace"] and src.sliced_inds != tree0.sliced_inds:
+                return True, f"{what}: the original tree was modified"
+        return False, "targets honoured on 16 seeds"
     # (A): replay the prediction path of the real code: remove the returned indices one by one
     item = dict(case)
     tree0 = make_tree(item)
